@@ -32,6 +32,7 @@ import (
 //	c11.nodes <hex text>           parseClusterNodes -> ok m=<masters> r=<replicas> s=<slots> | err | panic
 //	c11.reply <e|d> <b|a> <hex>    a backend reply value (bulk string, or the value of an HGETALL pair) through the reply hooks of a processor with a
 //	                               compression section (enabled / disabled but configured) -> replied <reply> | pending | panic
+//	c11.null <cmd> <n> <i>         a request with a null bulk string as its i-th element -> rejected sent=0 | forwarded <wire hex>
 //	c11.scan <reply value>         SCAN reply hook -> done <reply> | panic
 //	c11.session <hex bytes>        bytes sent by a client to a real session; then a second client sends PING
 //	                               -> first=<closed|open> replies=<n> errs=<n> second=<pong|dead>
@@ -199,6 +200,52 @@ func (c11child) Exec(op string) string {
 			l = len(v.Array[0].Text)
 		}
 		return fmt.Sprintf("ok %d", l)
+	case "c11.null":
+		// c11.null <cmd> <n> <i>   a request of n elements whose i-th (0 = the command name) is a null bulk string ("$-1"), the others
+		// ordinary arguments, decoded from wire bytes and handed to the real request path -> rejected sent=<requests forwarded> | forwarded …
+		n, err1 := strconv.Atoi(f[2])
+		i, err2 := strconv.Atoi(f[3])
+		if len(f) != 4 || err1 != nil || err2 != nil || n < 1 || n > 8 || i < 0 || i >= n {
+			return "bad-op"
+		}
+		return recoverStr(func() string {
+			rig := hx.NewRig(2, pbredis.ReadStrategy_MASTER)
+			defer hx.DropScopes(rig.ScopeName())
+			rig.SetSlot(0, 16383, hx.NodeAddr(0), nil)
+			var wire bytes.Buffer
+			fmt.Fprintf(&wire, "*%d\r\n", n)
+			for k := 0; k < n; k++ {
+				arg := fmt.Sprintf("a%d", k)
+				if k == 0 {
+					arg = f[1]
+				}
+				if k == i {
+					wire.WriteString("$-1\r\n")
+				} else {
+					fmt.Fprintf(&wire, "$%d\r\n%s\r\n", len(arg), arg)
+				}
+			}
+			v, err := redis.VerifNewDecoder(bytes.NewReader(wire.Bytes()), 4096).Decode()
+			if err != nil {
+				return "undecodable"
+			}
+			raw := rig.Handle(v)
+			sent := rig.Drain()
+			if len(sent) > 0 {
+				var ws []string
+				for _, s := range sent {
+					ws = append(ws, hx.Hex(hx.Wire(s.Body())))
+				}
+				return "forwarded " + strings.Join(ws, ",")
+			}
+			if !raw.Done() {
+				return "pending"
+			}
+			if raw.Response().Type != redis.Error {
+				return "answered " + hx.Render(raw.Response())
+			}
+			return "rejected sent=0"
+		})
 	case "c11.redir":
 		text, err := hx.Unhex(f[1])
 		if err != nil {
@@ -377,6 +424,13 @@ func (c *c11) Gen(r *hx.Run) {
 	defer c.iso.Close()
 	rng := r.Rng
 	h := func(s string) string { return hx.Hex([]byte(s)) }
+	// 0. null bulk strings as request elements
+	for _, cmd := range []string{"get", "set", "mget", "del", "ping", "hset", "eval", "scan"} {
+		n := 2 + rng.Intn(4)
+		r.Do(fmt.Sprintf("c11.null %s %d %d", cmd, n, rng.Intn(n)), true, "null-bulk-argument")
+	}
+	r.Do("c11.null get 2 1", true, "null-bulk-argument")
+	r.Do("c11.null get 1 0", true, "null-bulk-argument")
 	// 1. nesting depth and up-front allocation
 	for _, lv := range []int{1, 2, 7, 31, 32, 33, 64, 1000, 100000} {
 		r.Do(fmt.Sprintf("c11.deep a %d", lv), lv >= 3, "deep")
